@@ -34,7 +34,10 @@
 //   rtb_relax R                          runtime::relaxation::wrapper<BK> against relaxation::R<BK> on one matrix:
 //                                        apply_pre x2, apply_post, apply, bytes()
 //   rtb_invalid W text                   W = solver | relaxation | coarsening | class: name rejected with std::invalid_argument
-//   rtb_export ns                        make_solver<...run-time...>::params(tree).get(out) == tree (all keys, nullspace.* included)
+//   rtb_outofrange W v                   W = solver | relaxation, v = 9..15: an enumerator value outside the enumeration (in range of the
+//                                        type) is refused by every member with std::invalid_argument, printed as "???"
+//   rtb_export ns W                      W = solve | amg | nested: make_solver<...run-time...>::params(tree).get(out) holds every key of tree
+//                                        with its text (nullspace.* included) and nothing else but defaults of amg::params members
 //   rtb_unknown ns where                 construction from a tree with the manual keys nullspace.{cols,rows,B} (+ one key nobody
 //                                        understands below `where`, or `-`): exactly the foreign key is reported through
 //                                        AMGCL_PARAM_UNKNOWN
@@ -508,6 +511,40 @@ static Result op_invalid(const Toks &t) {
     return r;
 }
 
+// an enumerator VALUE outside the enumeration (representable: 9 enumerators, values up to 15 are in range of the type): every
+// member of the relaxation / solver wrapper must refuse it with std::invalid_argument, operator<< of the enumeration prints "???"
+static Result op_outofrange(const Toks &t) {
+    Cur cu(t); const std::string W = cu.tok(); const long v = cu.nat(); cu.expect_end();
+    if (W != "solver" && W != "relaxation") throw bad_input("wrapper"); if (v < 9 || v > 15) throw bad_input("value");
+    Result r; r.nontrivial = true; r.tag("outofrange_" + W);
+    Sys s = model_system(false); BCrs A = to_crs(s); const size_t n = s.rhs.size();
+    const std::string who = std::string(BKNAME) + " " + W + " wrapper with the enumerator value " + std::to_string(v);
+    int refused = 0, calls = 0;
+    auto must_refuse = [&](const char *what, auto f) { ++calls; try { f(); r.fail(who + ": " + what + " does not throw"); } catch (const std::invalid_argument &) { ++refused; } catch (const std::exception &e) { r.fail(who + ": " + what + " throws " + e.what()); } };
+    typedef ac::backend::numa_vector<RHS> Vec;
+    Vec f(s.rhs), x(n), tmp(n);
+    for (size_t i = 0; i < n; ++i) { x[i] = ac::math::zero<RHS>(); tmp[i] = ac::math::zero<RHS>(); }
+    if (W == "relaxation") {
+        { std::ostringstream os; os << (rt::relaxation::type)v; if (os.str() != "???") r.fail(who + ": operator<< prints '" + os.str() + "'"); }
+        ptree q; q.put("type", "spai0"); rt::relaxation::wrapper<BK> w(A, q);
+        const rt::relaxation::type keep = w.r; w.r = (rt::relaxation::type)v;
+        must_refuse("apply_pre", [&] { w.apply_pre(A, f, x, tmp); }); must_refuse("apply_post", [&] { w.apply_post(A, f, x, tmp); });
+        must_refuse("apply", [&] { w.apply(A, f, x); }); must_refuse("bytes", [&] { (void)w.bytes(); });
+        w.r = keep;
+    } else {
+        { std::ostringstream os; os << (rt::solver::type)v; if (os.str() != "???") r.fail(who + ": operator<< prints '" + os.str() + "'"); }
+        ptree q; q.put("type", "cg"); rt::solver::wrapper<BK> w(n, q);
+        ac::preconditioner::dummy<BK> P(A);
+        const rt::solver::type keep = w.s; w.s = (rt::solver::type)v;
+        must_refuse("operator()(A, P, rhs, x)", [&] { w(A, P, f, x); }); must_refuse("operator()(P, rhs, x)", [&] { w(P, f, x); });
+        must_refuse("operator<<", [&] { std::ostringstream os; os << w; }); must_refuse("bytes", [&] { (void)w.bytes(); });
+        w.s = keep;
+    }
+    for (size_t i = 0; i < n; ++i) if (ac::math::norm(x[i]) != 0) { r.fail(who + ": x modified by a refused call"); break; }
+    r.out = std::to_string(refused) + "/" + std::to_string(calls);
+    return r;
+}
+
 static void flatten(const ptree &p, const std::string &pre, std::vector<std::string> &out) {
     if (p.empty() || !p.data().empty()) out.push_back(pre + "=" + p.data());
     for (auto &kv : p) flatten(kv.second, pre.empty() ? kv.first : pre + "." + kv.first, out);
@@ -573,6 +610,7 @@ static Result execute(const Toks &t) {
     if (op == "rtb_invalid") return op_invalid(t);
     if (op == "rtb_export") return op_export(t);
     if (op == "rtb_unknown") return op_unknown(t);
+    if (op == "rtb_outofrange") return op_outofrange(t);
     throw bad_input("op");
 }
 
@@ -586,7 +624,9 @@ static void generate(Rng &rng, const Opts &o, std::vector<std::string> &lines) {
         for (int ns : nss) {
             // quick: the plain solve for every (C, ns, R, S); one replacement-matrix solve per (C, ns, R, S) with random options
             // thorough: every aggr.block_size / eps_strong option, `same` and two replacement matrices
-            std::vector<int> abss = {1}; if (BLOCK) abss.push_back(BS);
+            // aggr.block_size > 1 only on the scalarised path (there it counts scalar unknowns per node; on the plain path it would
+            // count block rows, and the model grid is not a multiple of 3)
+            std::vector<int> abss = {1}; if (BLOCK && ns > 0) abss.push_back(BS);
             if (th) {
                 for (int abs : abss) for (int e = 0; e < 2; ++e) {
                     std::string head = "rtb_solve " + C + " " + std::to_string(ns) + " " + std::to_string(abs) + " " + std::to_string(e) + " " + R + " " + S + " ";
@@ -624,7 +664,9 @@ static void generate(Rng &rng, const Opts &o, std::vector<std::string> &lines) {
     }
     for (int ns : nss) for (const char *w : {"solve", "amg", "nested"}) lines.push_back("rtb_export " + std::to_string(ns) + " " + w);
     for (int ns : nss) for (auto &w : WHERE) lines.push_back("rtb_unknown " + std::to_string(ns) + " " + w);
+    for (const char *W : {"solver", "relaxation"}) { lines.push_back(std::string("rtb_outofrange ") + W + " 9"); lines.push_back(std::string("rtb_outofrange ") + W + " " + std::to_string(rng.range(10, 15))); }
     // malformed
+    lines.push_back("rtb_outofrange solver 3");
     lines.push_back("rtb_solve");
     lines.push_back("rtb_solve aggregation 0 1 0 spai0 bicgstab");
     lines.push_back("rtb_solve no_such 0 1 0 spai0 bicgstab -");
